@@ -377,6 +377,8 @@ def _describe(case):
 # stage schedule: one case = one (configuration, schedule); run through every route
 
 def run_routes(case):
+    """Signatures name the route only when the defect is route specific (the setter route, run first, is fine); a schedule kind
+    that is mishandled on every route gets one signature per kind."""
     bad = Viol()
     sched = Sched(case['spec'])
     base = None
@@ -384,6 +386,7 @@ def run_routes(case):
     steps = []
     errs = []
     worst = 0.0
+    base_record_bad = base_flag_bad = False
     for route in case.get('routes', ROUTES):
         tag = '%s route=%s' % (_describe(case), route)
         r = run_one(case['cfg'], sched, route, parts=case.get('parts', 1))
@@ -392,7 +395,8 @@ def run_routes(case):
             errs.append(r['error'][0])
             if r['error'][0] != 'StepLimit':
                 bad('C13/exception/%s/%s' % (r['error'][0], r['error'][1].split(' at ')[-1]), '%s: %s: %s' % (tag, r['error'][0], r['error'][1]))
-        states += check_record(r, [(0, sched)], lambda s, msg: bad(s + '/route=%s' % route, msg), tag)
+        rec = Viol()
+        states += check_record(r, [(0, sched)], rec, tag)
         steps.append(int(d.n))
         if r['cfg']['system'] == 'bin':
             _, _, w = check_lookup(r, bad, tag)
@@ -400,15 +404,22 @@ def run_routes(case):
         flag_ok = bool(r['flags']) and r['flags'][0] == sched.isothermal
         if route == 'setter':
             base = r
+            base_record_bad, base_flag_bad = bool(rec.v), not flag_ok
+            for v in rec.v:
+                bad(v['sig'], v['msg'])
             if not flag_ok:
-                bad('C13/isothermal-treatment/route=%s' % route, '%s: _isIsothermal=%r for a %s schedule' % (tag, r['flags'], sched.form))
+                bad('C13/isothermal-treatment/form=%s' % sched.form, '%s: _isIsothermal=%r for a %s schedule' % (tag, r['flags'], sched.form))
             continue
+        if not base_record_bad:
+            for v in rec.v:
+                bad(v['sig'] + '/route=%s' % route, v['msg'])
         diff = pdata_diff(base['model'].pData, d)
         if not flag_ok:
-            bad('C13/isothermal-treatment/route=%s' % route,
-                '%s: _isIsothermal=%r but the schedule is %s (setter route: %r); histories %s'
-                % (tag, r['flags'], sched.form, base['flags'], ('differ: ' + diff) if diff else 'are identical (no nucleation in this run)'))
-        elif diff is not None:
+            if not (base_flag_bad and r['flags'] == base['flags']):
+                bad('C13/isothermal-treatment/route=%s' % route,
+                    '%s: _isIsothermal=%r but the schedule is %s (setter route: %r); histories %s'
+                    % (tag, r['flags'], sched.form, base['flags'], ('differ: ' + diff) if diff else 'are identical (no nucleation in this run)'))
+        elif diff is not None and not base_flag_bad:
             bad('C13/route-not-equivalent/route=%s' % route, '%s: run differs from the setter route: %s' % (tag, diff))
     nuc = bool(base is not None and np.any(base['model'].pData.nucRate > 0))
     return {'viol': bad.v, 'states': states, 'transitions': states, 'traces': len(steps), 'evaluations': len(steps),
@@ -429,10 +440,11 @@ def run_respec(case):
     if err is not None and err[0] != 'StepLimit':
         bad('C13/exception/%s/%s' % (err[0], err[1].split(' at ')[-1]), '%s: %s: %s' % (tag, err[0], err[1]))
     cut = r['cut'] if r['cut'] is not None else len(d.time)
-    n = check_record(r, [(0, A), (cut + 1, B)], lambda s, msg: bad(s + '/respecified-by=%s' % case['how'], msg), tag)
+    n = check_record(r, [(0, A), (cut + 1, B)], bad, tag)
     if len(r['flags']) == 2 and r['flags'] != [A.isothermal, B.isothermal]:
-        bad('C13/isothermal-treatment/respecified-by=%s' % case['how'],
-            '%s: _isIsothermal before/after = %r, schedules are %s/%s' % (tag, r['flags'], A.form, B.form))
+        wrong = A if r['flags'][0] != A.isothermal else B
+        bad('C13/isothermal-treatment/form=%s' % wrong.form,
+            '%s: _isIsothermal before/after the re-specification = %r, schedules are %s/%s' % (tag, r['flags'], A.form, B.form))
     worst = 0.0
     if r['cfg']['system'] == 'bin':
         _, _, worst = check_lookup(r, bad, tag)
@@ -451,7 +463,7 @@ def run_lookup(case):
     err = r['error']
     if err is not None and err[0] != 'StepLimit':
         bad('C13/exception/%s/%s' % (err[0], err[1].split(' at ')[-1]), '%s: %s: %s' % (tag, err[0], err[1]))
-    n = check_record(r, [(0, sched)], lambda s, msg: bad(s + '/route=setter', msg), tag)
+    n = check_record(r, [(0, sched)], bad, tag)
     rows, changes, worst = check_lookup(r, bad, tag)
     lim = case['cfg']['constraints']['maxTempChange']
     span = float(np.max(d.temperature) - np.min(d.temperature))
@@ -500,7 +512,7 @@ def run_real(case):
         bad('C13/exception/%s/real-backend' % err, '%s: %s: %s' % (tag, err, e))
     d = m.pData
     run = {'model': m}
-    n = check_record(run, [(0, sched)], lambda sg, msg: bad(sg + '/route=setter/real-backend', msg), tag)
+    n = check_record(run, [(0, sched)], bad, tag)
     # O3: table temperature read off the solvus grid (linear interpolation on a 0.05 K grid of a smooth curve whose relative
     # second difference is 3e-7 per grid step: error < 1e-4 K; solver noise of the equilibrium itself < 1e-6 relative = 2e-5 K);
     # tolerance 0.02 K
@@ -633,9 +645,16 @@ def _run_diff(case):
     it = SolverType.EXPLICITEULER if case['it'] == 'euler' else SolverType.RK4
     base = None
     states = 0
+    base_bad = False
     for route in DIFF_ROUTES:
         tag = '%s route=%s' % (desc, route)
-        sig_tail = '%s/form=%s/route=%s' % (case['model'], case['spec']['form'], route)
+        # the route is named only when the setter route (run first) is fine, i.e. the defect is route specific
+        sig_tail = '%s/form=%s' % (case['model'], case['spec']['form'])
+        if route != 'setter':
+            if base_bad:
+                continue
+            sig_tail += '/route=%s' % route
+        nbefore = len(bad.v)
         m, ref, ref2 = build_diff(case, route, tau)
         tab = RecordingTable()
         m.hashTable = tab
@@ -658,6 +677,7 @@ def _run_diff(case):
             raise
         except Exception as e:
             bad('C13/diffusion/exception/%s/%s' % (type(e).__name__, case['model']), '%s: %s: %s' % (tag, type(e).__name__, e))
+            base_bad = base_bad or route == 'setter'
             continue
         # O4: every temperature that reached the environment
         z = m.z
@@ -684,6 +704,7 @@ def _run_diff(case):
         rec = (np.asarray(m._recordedTime).tobytes(), np.asarray(m._recordedX).tobytes())
         if route == 'setter':
             base = rec
+            base_bad = len(bad.v) > nbefore
         elif base is not None and rec != base:
             bad('C13/diffusion/route-not-equivalent/' + sig_tail, '%s: recorded profiles differ from the setter route' % tag)
     return {'viol': bad.v, 'states': states, 'transitions': states, 'traces': len(DIFF_ROUTES), 'evaluations': len(DIFF_ROUTES),
